@@ -296,6 +296,9 @@ Fixpoint consumer_segments (hd : held) (first : bool) (segs : list segment) : li
   | [] => []
   | sg :: r =>
       let st0 := consumer_enter (sg_sel sg) (sg_ents sg) hd (sg_enter sg) in
+      (* connectContextInner: `if len(h) == 0 { return nil, ErrNoHost }` -- no session, no Connect *)
+      if first && (h_host (snd st0) =? -1) then []
+      else
       let '(evs, stf) := consumer_passes (sg_sel sg) (sg_ents sg) st0 (sg_passes sg) in
       (if first then [connect_event (sg_sel sg) (sg_ents sg) st0] else []) ++ evs
       ++ consumer_segments (snd stf) false r
